@@ -24,7 +24,7 @@ RULE = ('inputs: corpus and derivations in 5 layouts (multi-line tokens, CRLF, U
 ASSUMPTIONS = ['the token at an offset of a source is taken from the refjs token/comment log of that source; a fragment '
                'without position (None or the implied 0:0) is legal and only counted']
 BUDGET_S = {'quick': 60, 'thorough': 700}
-REQUIRED_HITS = ['fragments_positioned', 'fragments_checked', 'renamed_checked', 'multi_source_checked']
+REQUIRED_HITS = ['fragments_positioned', 'fragments_checked', 'renamed_checked', 'multi_source_checked', 'three_level_nesting']
 FLOOR = {'quick': 1500, 'thorough': 30000}
 
 
@@ -246,6 +246,23 @@ def check_multi(ctx, synth, texts, origin):
                 b_kids[0].sourcepath = trees[1].sourcepath
                 nested._children_list = [a_kids[0], b_kids[0]] + a_kids[1:]
                 frags3 = list(make()(nested))
+            # three levels: a block of file B inside the program of file A, holding a statement of file A
+            # between two statements of B (what inlining a helper back into a wrapped module produces)
+            if len(a_kids) >= 3 and len(b_kids) >= 2:
+                for c in a_kids + b_kids:
+                    c.sourcepath = None
+                inner_a = a_kids[1]
+                inner_a.sourcepath = trees[0].sourcepath
+                blk = asttypes.Block([b_kids[0], inner_a, b_kids[1]])
+                blk.sourcepath = trees[1].sourcepath
+                deep = asttypes.ES5Program([])
+                deep.sourcepath = trees[0].sourcepath
+                deep._children_list = [a_kids[0], blk] + a_kids[2:]
+                try:
+                    frags3 += list(make()(deep))
+                    ctx.hit('three_level_nesting')
+                finally:
+                    inner_a.sourcepath = None
             # and at expression level: (expression of file B), (expression of file A) in one statement of A
             ea = [c for c in a_kids if type(c).__name__ == 'ExprStatement']
             eb = [c for c in b_kids if type(c).__name__ == 'ExprStatement']
